@@ -106,10 +106,32 @@ def patrol(chk, cases):
     return bad
 
 
+def dilog_hypotheses(chk):
+    """the two facts about the dilogarithm the local-part theorems assume, on the implementation the heavy CC closures call (scipy.special.spence(1 - u) = Li2(u)):
+    Euler's reflection identity on (0,1) and the derivative -ln(1-u)/u (central difference)"""
+    import math
+    from scipy.special import spence
+    li2 = lambda u: float(spence(1.0 - u))
+    worst_r, worst_d, n = 0.0, 0.0, 0
+    for i in range(1, 200):
+        l = i / 200.0
+        worst_r = max(worst_r, abs(li2(l) + li2(1 - l) - (math.pi ** 2 / 6 - math.log(l) * math.log(1 - l))))
+        h = 1e-6 * min(l, 1 - l)
+        worst_d = max(worst_d, abs((li2(l + h) - li2(l - h)) / (2 * h) - (-math.log(1 - l) / l)) / max(1.0, abs(math.log(1 - l) / l)))
+        n += 1
+    ok = worst_r <= 1e-12 and worst_d <= 1e-6
+    chk.patrol["dilogarithm_hypotheses"] = dict(cases=n, failures=0 if ok else 1, worst_reflection_residual=worst_r, worst_relative_derivative_residual=worst_d,
+                                                rule="scipy.special.spence(1-u) at u = k/200: Li2(u) + Li2(1-u) = pi^2/6 - ln u ln(1-u) within 1e-12 and (central difference) Li2' = -ln(1-u)/u within 1e-6")
+    if not ok:
+        chk.violation("dilog-hypotheses", "the dilogarithm the heavy CC closures call does not satisfy the hypotheses of the local-part theorems: reflection residual %.2e, derivative residual %.2e"
+                      % (worst_r, worst_d), dict(reflection=worst_r, derivative=worst_d))
+
+
 def run(chk):
     chk.trusted = TRUSTED
     quick = chk.tier == "quick"
     common.check_props_file(chk, "C08")
+    dilog_hypotheses(chk)
     bad = wlayer.run_combiner(chk, 100 if quick else 1000, fixed=dict(theory=dict(FNS="FFN0"), obs=dict(TargetDIS=dict(Z=1.0, A=1.0))), name="combiner_ffn0")
     chk.oblige("correspondence Combiner, FFN0 cells (kernel list, weights, nf, heavy quark of every kernel)", not bad, str(bad[:1]))
     bad2 = wlayer.run_combiner(chk, 80 if quick else 800, fixed=dict(theory=dict(FNS="FFNS"), obs=dict(TargetDIS=dict(Z=1.0, A=1.0))), name="combiner_ffns")
